@@ -108,12 +108,22 @@ func (route *baseRoute) run() {
 	}
 }
 
+// metricName returns the name part of a metric line (everything up to the first space).
+// filters apply to the name, not to the value or timestamp.
+func metricName(buf []byte) []byte {
+	if pos := bytes.IndexByte(buf, ' '); pos >= 0 {
+		return buf[:pos]
+	}
+	return buf
+}
+
 func (route *SendAllMatch) Dispatch(buf []byte) {
 	conf := route.config.Load().(Config)
 	verifPoint("sendallmatch-after-load")
 
+	name := metricName(buf)
 	for _, dest := range conf.Dests() {
-		if dest.Match(buf) {
+		if dest.Match(name) {
 			// dest should handle this as quickly as it can
 			log.Tracef("route %s sending to dest %s: %s", route.key, dest.Key, buf)
 			dest.In <- buf
@@ -125,8 +135,9 @@ func (route *SendFirstMatch) Dispatch(buf []byte) {
 	conf := route.config.Load().(Config)
 	verifPoint("sendfirstmatch-after-load")
 
+	name := metricName(buf)
 	for _, dest := range conf.Dests() {
-		if dest.Match(buf) {
+		if dest.Match(name) {
 			// dest should handle this as quickly as it can
 			log.Tracef("route %s sending to dest %s: %s", route.key, dest.Key, buf)
 			dest.In <- buf
